@@ -18,7 +18,8 @@ Events (same text as the model driver's input):
   Y<d>,<c>,<serial>   method return from d to c's unique name
   T<c>,<serial>       wait until c got the NoReply error for that call (reply_timeout configured)
   E<c>,<tag>          signal that rule <tag> selects
-  M<c>,<size>         message to the driver of exactly <size> bytes (reported to the model as its first 16 bytes)
+  M<c>,<size>[,<pad>[,<B|L>]]  message to the driver of exactly <size> bytes on the wire, with <pad> (0..7) bytes of
+                      padding after the header field array, big- or little-endian (reported to the model as its first 16 bytes)
   G<7 limits>         rewrite the configuration file with these limits and call ReloadConfig
   Q<hex>              probe ListQueuedOwners         N   probe ListNames       S  (model only)
 
@@ -62,16 +63,42 @@ def limits_xml(limits, reply_timeout=None):
     return x
 
 
-def message_of_size(serial, size):
-    """a GetId call to the driver with an `ay` argument padded so that the whole message has `size` bytes
-    (None if no such message exists)"""
-    hdr = {F_PATH: "/org/freedesktop/DBus", F_INTERFACE: BUS, F_DESTINATION: BUS, F_MEMBER: "GetId"}
-    base = len(rawbus.Msg(METHOD_CALL, 0, serial, hdr, "ay", (b"",)).encode())
+def _msg(serial, member, body, le):
+    hdr = {F_PATH: "/org/freedesktop/DBus", F_INTERFACE: BUS, F_DESTINATION: BUS, F_MEMBER: member}
+    # MEMBER goes last in the field array (every field starts on an 8-byte boundary, so only the last field's
+    # length decides how much padding follows the array)
+    return rawbus.Msg(METHOD_CALL, 0, serial, hdr, "ay", (body,), le=le).encode(
+        field_order=[F_PATH, F_INTERFACE, F_DESTINATION, rawbus.F_SIGNATURE, F_MEMBER])
+
+
+def message_of_size(serial, size, pad=None, be=False):
+    """a call to the driver with an `ay` argument such that the whole message has `size` bytes on the wire
+    (None if no such message exists).  pad: number of padding bytes (0..7) between the header field array and the
+    body, obtained by lengthening the MEMBER field (None: whatever "GetId" gives); be: big-endian."""
+    le = not be
+    member = "GetId"
+    if pad is not None:
+        for k in range(8):
+            data = _msg(serial, "GetId" + "x" * k, b"", le)
+            fl = struct.unpack_from("<I" if le else ">I", data, 12)[0]
+            if (-(16 + fl)) % 8 == pad:
+                member = "GetId" + "x" * k
+                break
+        else:
+            return None
+    base = len(_msg(serial, member, b"", le))
     if size < base:
         return None
-    m = rawbus.Msg(METHOD_CALL, 0, serial, hdr, "ay", (b"z" * (size - base),))
-    data = m.encode()
+    data = _msg(serial, member, b"z" * (size - base), le)
     return data if len(data) == size else None
+
+
+def parse_m(ev):
+    """M<c>,<size>[,<pad 0..7|->[,<B|L>]] -> (c, size, pad, be)"""
+    parts = ev[1:].split(",")
+    pad = int(parts[2]) if len(parts) > 2 and parts[2] != "-" else None
+    be = len(parts) > 3 and parts[3] == "B"
+    return int(parts[0]), int(parts[1]), pad, be
 
 
 class Session:
@@ -355,7 +382,8 @@ class Session:
             return self.collect(actor, serial, kind)
         if kind == "M":
             serial = c.next_serial()
-            data = message_of_size(serial, int(parts[1]))
+            _, size, pad, be = parse_m(ev)
+            data = message_of_size(serial, size, pad, be)
             if data is None:
                 raise Broken("no message of %s bytes" % parts[1])
             self.skip_serial.setdefault(actor, set()).add(serial)
@@ -398,9 +426,9 @@ def model_events(events):
     out = []
     for ev in events:
         if ev[0] == "M":
-            c, size = ev[1:].split(",")
-            data = message_of_size(1, int(size))
-            out.append("M%s,%s" % (c, data[:16].hex()))
+            c, size, pad, be = parse_m(ev)
+            data = message_of_size(1, size, pad, be)
+            out.append("M%d,%s" % (c, data[:16].hex()))
         else:
             out.append(ev)
     return out
